@@ -9,6 +9,8 @@ import J1939.Lemmas.PyDict
 import J1939.Lemmas.Tactics
 import J1939.Lemmas.Const21
 import J1939.Model.Dll22
+import J1939.Lemmas.Cons22
+import J1939.Props.C07
 namespace J1939.Props.C10
 open J1939 J1939.Gen J1939.Dll21
 
@@ -139,5 +141,86 @@ theorem c10_22_deleted_returns_number (cfg : Cfg) (now : Nat) (b : Snd) (hd0 : b
     have e5 : (S_SENDING_EOM_STATUS == S_SENDING_BAM) = false := by decide
     simp only [e1, e2, e3, e4, e5, Bool.false_eq_true, if_false, beq_self_eq_true, if_true]
     exact ⟨trivial, trivial⟩
+
+/-! ## J1939-22: conservation of the session pools over every history -/
+section cons22
+open J1939.Dll22 J1939.Props.C07
+
+/-- the invariant holds initially (empty tables, 8 + 4 free numbers) -/
+theorem c10_22_cons_init : Cons {} := by
+  have none : ∀ k, ({} : Dll22.St).snd.get? k = none := fun _ => rfl
+  have noFalse : ∀ n (j : Nat), (List.replicate n true)[j]? = some false → False := by
+    intro n j hj
+    rw [List.getElem?_replicate] at hj
+    split at hj <;> cases hj
+  refine ⟨by decide, by decide, ?_, ?_, ?_, ?_, ?_, ?_, ?_, ?_, ?_, ?_⟩
+  · intro k b hk; rw [none k] at hk; cases hk
+  · intro k b hk; rw [none k] at hk; cases hk
+  · intro k b hk; rw [none k] at hk; cases hk
+  · intro k b hk; rw [none k] at hk; cases hk
+  · intro k b hk; rw [none k] at hk; cases hk
+  · intro k b hk; rw [none k] at hk; cases hk
+  · intro k k' b b' hk; rw [none k] at hk; cases hk
+  · intro k k' b b' hk; rw [none k] at hk; cases hk
+  · intro i hi; exact absurd hi (noFalse _ i)
+  · intro i hi; exact absurd hi (noFalse _ i)
+
+/-- CONSERVATION OVER EVERY HISTORY (J1939-22): after ANY sequence of send_pgn calls (any arguments with a one-byte PS,
+    accepted or refused), received frames (any identifier, any content — after the repair of D29 also from the illegal
+    source 255) and background passes (any times, whatever times out), the send table and the two pools agree exactly:
+    every session record holds a number that is marked used in the pool of its kind, no two records of a kind share a
+    number, and EVERY used number belongs to a live record of that kind — no number is ever lost or handed out twice -/
+theorem c10_22_conservation (cfg : Dll22.Cfg) (acc : Nat → Bool) (evs : List Ev22)
+    (hps : ∀ e ∈ evs, ∀ now dp pf ps prio sa data tl ff, e = Ev22.send now dp pf ps prio sa data tl ff → ps < 256) :
+    Cons (evs.foldl (step22 cfg acc) {}) := by
+  suffices ∀ s, Cons s → Cons (evs.foldl (step22 cfg acc) s) from this _ c10_22_cons_init
+  induction evs with
+  | nil => intro s h; exact h
+  | cons e es ih =>
+    intro s h
+    simp only [List.foldl_cons]
+    apply ih (fun e' he' => hps e' (List.mem_cons_of_mem _ he'))
+    cases e with
+    | send now dp pf ps prio sa data tl ff =>
+      exact sendPgn_cons cfg s now dp pf ps prio sa data tl ff (hps _ (List.mem_cons_self ..) now dp pf ps prio sa data tl ff rfl) h
+    | rx now canId data => exact notify_cons cfg s now acc canId data h
+    | pass now => exact tick_cons cfg s now h
+
+/-- … in particular a session number is in use EXACTLY when a live session of that kind holds it -/
+theorem c10_22_used_iff_held (s : Dll22.St) (h : Cons s) (i : Nat) :
+    (s.rtsPool[i]? = some false ↔ ∃ k b, s.snd.get? k = some b ∧ KRts b.state ∧ b.session = i) ∧
+    (s.bamPool[i]? = some false ↔ ∃ k b, s.snd.get? k = some b ∧ KBam b.state ∧ b.session = i) := by
+  refine ⟨⟨h.ownR i, ?_⟩, ⟨h.ownB i, ?_⟩⟩
+  · rintro ⟨k, b, hk, hr, rfl⟩; exact h.usedR k b hk hr
+  · rintro ⟨k, b, hk, hb, rfl⟩; exact h.usedB k b hk hb
+
+/-- … and whenever no transfer is running the FULL advertised capacity (8 destination-specific + 4 broadcast sessions)
+    is available again, whatever happened before -/
+theorem c10_22_idle_means_full (s : Dll22.St) (h : Cons s) (hidle : s.snd = []) :
+    s.rtsPool = List.replicate 8 true ∧ s.bamPool = List.replicate 4 true := by
+  have none : ∀ k, s.snd.get? k = none := by intro k; rw [hidle]; rfl
+  have allTrue : ∀ (p : List Bool) (n : Nat), p.length = n → (∀ i : Nat, p[i]? ≠ some false) → p = List.replicate n true := by
+    intro p n hl hf
+    apply List.ext_getElem?
+    intro i
+    rw [List.getElem?_replicate]
+    by_cases hi : i < n
+    · simp only [hi, if_true]
+      have hi' : i < p.length := by omega
+      rw [List.getElem?_eq_getElem hi']
+      cases hv : p[i] with
+      | true => rfl
+      | false => exact absurd (by rw [List.getElem?_eq_getElem hi', hv]) (hf i)
+    · simp only [hi, if_false]
+      exact List.getElem?_eq_none (by omega)
+  refine ⟨allTrue _ 8 h.rl ?_, allTrue _ 4 h.bl ?_⟩
+  · intro i hi
+    obtain ⟨k, b, hk, _⟩ := h.ownR i hi
+    rw [none k] at hk; cases hk
+  · intro i hi
+    obtain ⟨k, b, hk, _⟩ := h.ownB i hi
+    rw [none k] at hk; cases hk
+
+end cons22
 
 end J1939.Props.C10
